@@ -698,6 +698,7 @@ fn run_prop(prop: &str, thorough: bool, seed: u64) -> Run {
         "C10" => {
             gen_parse(&mut run, seed, false);
             gen_build(&mut run, seed, false);
+            gen_api(&mut run, seed, thorough);
             gen_hs(&mut run, prop, seed, thorough);
             gen_transport(&mut run, prop, seed, thorough);
         },
@@ -707,6 +708,7 @@ fn run_prop(prop: &str, thorough: bool, seed: u64) -> Run {
         },
         "C12" => {
             gen_build(&mut run, seed, thorough);
+            gen_api(&mut run, seed, thorough);
             gen_tokens(&mut run, seed, thorough);
             gen_hs(&mut run, prop, seed, thorough);
         },
@@ -720,7 +722,10 @@ fn run_prop(prop: &str, thorough: bool, seed: u64) -> Run {
             gen_threads(&mut run, seed, thorough);
         },
         "C17" => gen_hs(&mut run, prop, seed, thorough),
-        "C18" => prim::gen_prim(&mut run, seed, thorough, false),
+        "C18" => {
+            prim::gen_prim(&mut run, seed, thorough, false);
+            gen_api(&mut run, seed, thorough);
+        },
         "C19" => {
             gen_hs(&mut run, prop, seed, thorough);
             gen_transport(&mut run, prop, seed, thorough);
@@ -865,6 +870,14 @@ fn exec_line(ex: &mut Exec, line: &str) {
         "drop" => ex.drop_session(parse_u(parts[1])),
         "resolve" => {
             ex.resolve(parts[1], parts[2], parts[3]);
+        },
+        "setters" => {
+            ex.setters(parts.get(1).copied().unwrap_or("-"));
+        },
+        "genkey" => {
+            let name = String::from_utf8_lossy(&b(parts[2])).to_string();
+            let rng = parts.iter().find_map(|x| x.strip_prefix("rng=")).map(|h| b(h)).unwrap_or_default();
+            ex.genkey(parts[1], &name, &rng);
         },
         "prim" => prim::exec_prim(ex, &parts),
         _ => {
